@@ -3,6 +3,7 @@ import MemVerif.Gen.Guards
 import MemVerif.Model.Buckets
 import MemVerif.Drv.Stack
 import MemVerif.Drv.Pool
+import MemVerif.Drv.Cover
 import MemVerif.Model.Debug
 import MemVerif.Model.ExcSafe
 import MemVerif.Model.Joint
@@ -178,6 +179,7 @@ structure DState where
   conts : List Cont := []
   ctraits : ATraits := {}
   fixes : Fixes := {}
+  cov : List (String × Nat) := []
 
 /-- one trace line in, the model's line out -/
 def step (ds : DState) (line : String) : DState × String :=
@@ -241,6 +243,12 @@ def step (ds : DState) (line : String) : DState × String :=
       let obsState := secs.getD 4 ""
       let fin (st : StackSt) (r : String × String × String) : DState × String :=
         ({ ds with stack := st }, mkLine (secs.getD 0 "") (secs.getD 1 "") r.1 r.2.1 r.2.2)
+      let labels : List String :=
+        if subj = "pool" then poolLabels ds.pool rest else if subj = "coll" then collLabels ds.pool rest
+        else if subj = "stack" then stackLabels ds.stack rest else []
+      let ds := { ds with cov := labels.foldl bump ds.cov }
+      let fin (st : StackSt) (r : String × String × String) : DState × String :=
+        ({ ds with stack := st }, mkLine (secs.getD 0 "") (secs.getD 1 "") r.1 r.2.1 r.2.2)
       if subj = "stack" then
         let (st, res, up, sts) := stackStep ds.stack rest env obsState
         fin st (res, up, sts)
@@ -289,7 +297,10 @@ def step (ds : DState) (line : String) : DState × String :=
 
 partial def loop (h : IO.FS.Stream) (out : IO.FS.Stream) (ds : DState) : IO Unit := do
   let line ← h.getLine
-  if line.isEmpty then return ()
+  if line.isEmpty then
+    if !ds.cov.isEmpty then
+      (← IO.getStderr).putStrLn ("coverage " ++ " ".intercalate (ds.cov.map fun (k, n) => s!"{k}={n}"))
+    return ()
   let (ds', o) := step ds line
   out.putStrLn o
   loop h out ds'
